@@ -574,7 +574,9 @@ GFrom == 5        \* produced by From<literal> (i.e. through Into::into)
 GExpr == 6        \* produced by evaluating the user's expression
 TypeExprVal == 66 \* every field of the value built by a type-level expression
 
-LitKinds == {"int", "str", "bool", "char", "float"}
+\* ("int8": an integer literal with a type suffix, `11u8` -- converted through From<u8>, not through From<i32>)
+LitKinds == {"int", "int8", "str", "bool", "char", "float"}
+GFrom8 == 7      \* produced by From<u8>
 \* the abstract value the rendered literal / expression of field i denotes
 LitVal(kind, i) ==
   CASE kind = "bool" -> 1
@@ -586,6 +588,7 @@ DefaultFieldPlan(f, i) ==
   THEN IF f.dflt = "none" THEN <<"nat", 0, 0, 0>> ELSE <<"nat", 0, LitVal(f.dflt, i), 0>>
   ELSE CASE f.dflt = "none" -> <<"new", i, 7, GDefault>>
          [] f.dflt = "expr" -> <<"new", 0, LitVal("expr", i), GExpr>>
+         [] f.dflt = "int8" -> <<"new", 0, LitVal(f.dflt, i), GFrom8>>
          [] OTHER -> <<"new", 0, LitVal(f.dflt, i), GFrom>>
 
 \* the designated variant (for a union: `variant` 1 and the designated field)
